@@ -146,6 +146,12 @@ def run(ctx):
                 if rng.random() < ctx.budget(0.6, 1.0):
                     rho = rng.choice(ratios) if rng.random() < 0.6 else rng.uniform(1.05, 10)
                     cases.append((m, n, o, make_exact(rho)))
+    # the far end of the supported range: derivative orders 11 .. 20 (factorials beyond 10!), low orders of accuracy, small ratios
+    for m in METHODS:
+        for n in (11, 12, 13, 16, 20):
+            for o in (1, 2, 4):
+                if rng.random() < ctx.budget(0.5, 1.0):
+                    cases.append((m, n, o, make_exact(rng.choice([1.25, 1.6, 2.0]))))
     out = run_driver(['fdrule %s %s %d %d' % (q2s(Fraction(rho)), m, n, o) for m, n, o, rho in cases], 'C06w')
     eng = ctx.engine('rule.weights')
     weights = {}
